@@ -270,13 +270,13 @@ func runC09(ctx *Ctx, c *c09Case) {
 	}
 	cancel()
 	if !returned {
-		select {
-		case res = <-done:
-		case <-time.After(65 * time.Second):
+		fin := make(chan struct{})
+		go func() { res = <-done; close(fin) }()
+		if returned, blocked := awaitOrDeadlock(fin); !returned {
 			// a watchdog by itself decides nothing; a fan2go goroutine that has been waiting for a lock for a minute does:
 			// the controller cannot be stopped any more, so the fan is never handed back
-			if blocked := lockedForMinutes(); blocked != "" {
-				ctx.Violation("controller-cannot-be-stopped-after-fault:"+c.class(), fmt.Sprintf("Run() had not returned 65 s after cancel; a fan2go goroutine waits for a lock:\n%s\ncase %s", blocked, jsonStr(c)), c)
+			if blocked != "" {
+				ctx.Violation("controller-cannot-be-stopped-after-fault:"+c.class(), fmt.Sprintf("Run() had not returned 70 s after cancel; a fan2go goroutine waits for a lock:\n%s\ncase %s", blocked, jsonStr(c)), c)
 			} else {
 				ctx.Inconclusive("controller.Run did not return after cancel for " + jsonStr(c))
 			}
